@@ -421,7 +421,9 @@ class Representation(ObjectWithFields):
             origin_time = 0
             mod_segment = 1
             drift = 0
-            end = ref_duration_tc
+            # list the stored segments once; a track shorter than the timing
+            # reference must not wrap around to its first segment
+            end = self.mediaDuration
         rv = []
         dur = 0
         s_node = SegmentTimelineElement(mod_segment=mod_segment)
